@@ -687,7 +687,8 @@ def m_framing(rng, env, seed, kind=None):
     elif kind == 'cl_minus1':
         raw = req([('Content-Length', '-1')], xml)
     elif kind == 'cl_nonnumeric':
-        raw = req([('Content-Length', rng.choice(['abc', '12a', '0x10', '1e3', '１２'.encode(), '1 2', '1,2', '++1', '']))], xml)
+        raw = req([('Content-Length', rng.choice(['abc', '12a', '0x10', '1e3', '１２'.encode(), '1 2', '1,2', '++1', '',
+                                                       b'\xb2', b'1\xb3', b'\xb9\xb2\xb3', '٣'.encode(), b'\xbd']))], xml)
     elif kind == 'cl_empty':
         raw = req([('Content-Length', '')], xml)
     elif kind == 'cl_plus':
